@@ -123,8 +123,12 @@ type Frame struct {
 	noTailSplit bool
 	callOrd   map[*ssa.Call]int
 	loopEntry map[*loopInfo]*Mem
+	loopEntryGh map[*loopInfo]*Ghost
 	decHead   map[*loopInfo]*Term
 	inlineSet map[string]bool   // callees expanded in place in this verification (from the top contract)
+	addrNames map[string]*ssa.Alloc      // address-taken locals by source name
+	parent    *Frame                     // inlined frames: the frame of the call site
+	loopMods  map[*loopInfo][]designator // declared loop frames, evaluated at the loop head
 	unp       []*unpObj         // unpacked objects (shared with inlined frames)
 	unpIn     map[*unpObj]Val   // inlined frame: objects at entry
 	unpOut    map[*unpObj]Val   // inlined frame: objects at return
@@ -197,10 +201,31 @@ func (e *Engine) newFrame(fn *ssa.Function, con *Contract, top bool, depth int) 
 				if x.Comment != "" {
 					f.addName(x.Comment, x)
 				}
+			case *ssa.Alloc:
+				if x.Comment != "" && isIdentName(x.Comment) {
+					if f.addrNames == nil {
+						f.addrNames = map[string]*ssa.Alloc{}
+					}
+					if _, dup := f.addrNames[x.Comment]; !dup {
+						f.addrNames[x.Comment] = x
+					} else {
+						f.addrNames[x.Comment] = nil // ambiguous
+					}
+				}
 			}
 		}
 	}
 	return f
+}
+
+func isIdentName(s string) bool {
+	for i := 0; i < len(s); i++ {
+		c := s[i]
+		if !(c == '_' || c >= 'a' && c <= 'z' || c >= 'A' && c <= 'Z' || (i > 0 && c >= '0' && c <= '9')) {
+			return false
+		}
+	}
+	return s != ""
 }
 
 func (f *Frame) addName(n string, v ssa.Value) {
@@ -293,6 +318,25 @@ func (f *Frame) tailSize(b *ssa.BasicBlock) int {
 	seen := map[*ssa.BasicBlock]bool{}
 	stack := []*ssa.BasicBlock{b}
 	ok := true
+	lim := 10
+	if f.con != nil && f.con.TailSize > 0 {
+		lim = f.con.TailSize
+	}
+	// Inside the body of a cut loop the region ends at the back edge (the loop
+	// head is a cut point like a return), so paths through a loop body can be
+	// kept apart as well; this is only done on request (tail N).
+	inCut := func(x *ssa.BasicBlock) *loopInfo {
+		var best *loopInfo
+		for _, li := range f.loops {
+			if li.body[x] {
+				if mode, _ := li.mode(); mode != lmCut || f.con == nil || f.con.TailSize == 0 {
+					return &loopInfo{} // unrolled loop or default settings: not a tail
+				}
+				best = li
+			}
+		}
+		return best
+	}
 	for len(stack) > 0 && ok {
 		x := stack[len(stack)-1]
 		stack = stack[:len(stack)-1]
@@ -300,20 +344,30 @@ func (f *Frame) tailSize(b *ssa.BasicBlock) int {
 			continue
 		}
 		seen[x] = true
-		lim := 10
-		if f.con != nil && f.con.TailSize > 0 {
-			lim = f.con.TailSize
-		}
-		if len(seen) > lim || f.loopOf[x] != nil {
+		if len(seen) > lim {
 			ok = false
 			break
 		}
-		for _, li := range f.loops {
-			if li.body[x] {
-				ok = false
-			}
+		li := inCut(x)
+		if li != nil && li.header == nil {
+			ok = false
+			break
 		}
-		stack = append(stack, x.Succs...)
+		if f.loopOf[x] != nil && x != b {
+			// entering another loop from here: not loop-free
+			ok = false
+			break
+		}
+		if f.loopOf[x] != nil && x == b {
+			ok = false // a loop head itself is never split
+			break
+		}
+		for _, s := range x.Succs {
+			if li != nil && s == li.header {
+				continue // back edge of the enclosing cut loop: region ends here
+			}
+			stack = append(stack, s)
+		}
 	}
 	r := -1
 	if ok {
@@ -819,6 +873,23 @@ func (f *Frame) cutLoop(n *xnode, li *loopInfo, st *execState) {
 	e := f.e
 	tb := e.tb
 	f.curBlock = n.blk
+	// a loop head is a boundary like a call for unpacked objects: invariants
+	// speak about memory, so the objects are in memory while they are
+	// evaluated, and re-read from the havoc'd memory afterwards
+	loopStores := false
+	if len(f.unp) > 0 {
+		for b := range li.body {
+			for _, ins := range b.Instrs {
+				switch ins.(type) {
+				case *ssa.Store, *ssa.Call:
+					loopStores = true
+				}
+			}
+		}
+		if loopStores {
+			f.packAll(st)
+		}
+	}
 	// 0. implicit invariant of go/ssa's range-over-slice lowering: the index
 	// phi starts at -1 and only ever increments below the length. It is
 	// checked like a declared invariant (entry here, preservation at the back edge).
@@ -844,12 +915,18 @@ func (f *Frame) cutLoop(n *xnode, li *loopInfo, st *execState) {
 			f.ghostVals[g.Name] = gsc.coerceParam(gsc.eval(g.Init.Expr), g.Type, "ghost "+g.Name)
 		}
 		sc := f.scopeAt(st, nil)
+		sc.loopEntryMem = st.mem
+		sc.loopEntryGh = st.gh
 		for _, inv := range li.spec.Inv {
 			sc.goal = true
 			g := e.evalBool(sc, inv.Expr, inv.Text)
 			f.oblige(st, "invariant", fmt.Sprintf("L%d.%s.entry", li.ordinal, inv.Label), st.reach, g, li.header.Instrs[0].Pos(), "loop invariant on entry: "+inv.Text)
 		}
 		f.loopEntry[li] = st.mem
+		if f.loopEntryGh == nil {
+			f.loopEntryGh = map[*loopInfo]*Ghost{}
+		}
+		f.loopEntryGh[li] = st.gh
 	}
 	// 2. havoc header phis and memory
 	var phis []*ssa.Phi
@@ -878,30 +955,43 @@ func (f *Frame) cutLoop(n *xnode, li *loopInfo, st *execState) {
 		}
 	}
 	memBefore := st.mem
-	st.mem = f.havocLoopMem(li, st)
-	if st.mem != memBefore {
-		st.gh = e.freshGhost(fmt.Sprintf(".L%d", li.ordinal))
-	}
-	// unpacked objects are loop-carried state too: if the body may store to
-	// them they are arbitrary at the loop head
-	if len(f.unp) > 0 {
-		stores := false
-		for b := range li.body {
-			for _, ins := range b.Instrs {
-				switch ins.(type) {
-				case *ssa.Store, *ssa.Call:
-					stores = true
-				}
+	if li.spec != nil && li.spec.Modifies != nil && f.loopWrites(li) {
+		// declared loop frame: memory regions and ghost state named there are
+		// arbitrary at the loop head, everything else (in particular the
+		// contents of the input stream) is as before the loop
+		sc := f.scopeAt(st, nil)
+		if f.loopMods == nil {
+			f.loopMods = map[*loopInfo][]designator{}
+		}
+		f.loopMods[li] = nil
+		for _, r := range li.spec.Modifies {
+			sc.goal = false
+			d := e.evalDesignator(sc, r.Expr, r.Text)
+			f.loopMods[li] = append(f.loopMods[li], d)
+			switch {
+			case d.ghost == "":
+				st.mem = e.mc.HavocRange(st.mem, d.lo, d.n, "loopmem")
+			case d.lo == nil:
+				st.gh = st.gh.withScalar(d.ghost, tb.Fresh(fmt.Sprintf("ghost.%s.L%d", d.ghost, li.ordinal), BV(64)))
+			default:
+				st.gh = st.gh.withMem(d.ghost, e.mc.HavocRange(st.gh.mm[d.ghost], d.lo, d.n, fmt.Sprintf("ghost.%s.L%d", d.ghost, li.ordinal)))
 			}
 		}
-		if stores {
-			for _, o := range f.unp {
-				var inv2 []*Term
-				st.env[unpackKey{o}] = e.freshVal(fmt.Sprintf("unpacked.%s.L%d", o.name, li.ordinal), o.et, &inv2)
-				for _, t := range inv2 {
-					e.assume(tb.Implies(st.reach, t))
-				}
-			}
+		// memory handed out by the allocator in earlier iterations (and written
+		// there, which the loop frame allows) is arbitrary at the loop head
+		st.mem = e.mc.HavocRange(st.mem, tb.ConstU(preLimit, 64), tb.ConstU(addrLimit-preLimit, 64), "loopmem.fresh")
+	} else {
+		st.mem = f.havocLoopMem(li, st)
+		if st.mem != memBefore {
+			st.gh = e.freshGhost(fmt.Sprintf(".L%d", li.ordinal))
+		}
+	}
+	// unpacked objects are loop-carried state too: if the body may store to
+	// them their memory is arbitrary at the loop head (constrained by the
+	// invariant assumed below)
+	if len(f.unp) > 0 && loopStores {
+		for _, o := range f.unp {
+			st.mem = e.mc.HavocRange(st.mem, o.base, tb.ConstU(uint64(sizes.Sizeof(o.et)), 64), "loop.unpacked."+o.name)
 		}
 	}
 	st.st.cut = true
@@ -940,6 +1030,8 @@ func (f *Frame) cutLoop(n *xnode, li *loopInfo, st *execState) {
 		}
 		sc := f.scopeAt(st, nil)
 		sc.loopEntryMem = f.loopEntry[li]
+	sc.loopEntryGh = f.loopEntryGh[li]
+		sc.loopEntryGh = f.loopEntryGh[li]
 		for _, iv := range li.spec.Inv {
 			e.assumeClause(sc, iv.Expr, iv.Text, st.reach)
 		}
@@ -948,6 +1040,9 @@ func (f *Frame) cutLoop(n *xnode, li *loopInfo, st *execState) {
 			v := e.evalInt(sc, li.spec.Decreases, li.spec.DecreasesText)
 			f.decHead[li] = v
 		}
+	}
+	if len(f.unp) > 0 && loopStores {
+		f.unpackAll(st)
 	}
 }
 
@@ -970,23 +1065,26 @@ func (f *Frame) iterInvariant(n *xnode, li *loopInfo, st *execState) {
 // body contains no store, no call that may write and no copy/append, memory is
 // unchanged; otherwise either the declared "modifies" ranges are havoc'd or
 // (no declaration) everything is.
-func (f *Frame) havocLoopMem(li *loopInfo, st *execState) *Mem {
-	e := f.e
-	writes := false
+func (f *Frame) loopWrites(li *loopInfo) bool {
 	for b := range li.body {
 		for _, ins := range b.Instrs {
 			switch x := ins.(type) {
 			case *ssa.Store, *ssa.MapUpdate, *ssa.Send, *ssa.Go, *ssa.Defer:
 				_ = x
-				writes = true
+				return true
 			case *ssa.Call:
 				if !f.callIsPure(x) {
-					writes = true
+					return true
 				}
 			}
 		}
 	}
-	if !writes {
+	return false
+}
+
+func (f *Frame) havocLoopMem(li *loopInfo, st *execState) *Mem {
+	e := f.e
+	if !f.loopWrites(li) {
 		return st.mem
 	}
 	if li.spec != nil && li.spec.Modifies != nil {
@@ -1003,6 +1101,11 @@ func (f *Frame) havocLoopMem(li *loopInfo, st *execState) *Mem {
 
 func (f *Frame) backEdge(n *xnode, li *loopInfo, st *execState, cond *Term) {
 	e := f.e
+	if len(f.unp) > 0 {
+		st2 := *st
+		st = &st2
+		f.packAll(st)
+	}
 	{
 		idx := predIndex(li.header, n.blk)
 		for _, ins := range li.header.Instrs {
@@ -1057,6 +1160,7 @@ func (f *Frame) backEdge(n *xnode, li *loopInfo, st *execState, cond *Term) {
 	}()
 	sc := f.scopeAt(st, over)
 	sc.loopEntryMem = f.loopEntry[li]
+	sc.loopEntryGh = f.loopEntryGh[li]
 	st2 := *st
 	for _, iv := range li.spec.Inv {
 		sc.goal = true
@@ -1262,8 +1366,30 @@ func (f *Frame) packAll(st *execState) {
 
 // unpackAll (re)loads every unpacked object from memory.
 func (f *Frame) unpackAll(st *execState) {
+	e := f.e
+	tb := e.tb
+	if st.reach == nil {
+		st.reach = tb.True()
+	}
 	for _, o := range f.unp {
-		st.env[unpackKey{o}] = f.e.load(st.mem, o.base, o.et)
+		v := e.load(st.mem, o.base, o.et)
+		st.env[unpackKey{o}] = v
+		// typed memory: slice and string headers satisfy 0 <= len (<= cap),
+		// as for every load of such a value
+		var walk func(v Val)
+		walk = func(v Val) {
+			switch s := v.(type) {
+			case SliceV:
+				e.assume(tb.Implies(st.reach, tb.And(tb.Sle(tb.ConstU(0, 64), s.Len), tb.Sle(s.Len, s.Cap), tb.Ule(s.Cap, tb.ConstU(addrLimit, 64)))))
+			case StringV:
+				e.assume(tb.Implies(st.reach, tb.And(tb.Sle(tb.ConstU(0, 64), s.Len), tb.Ule(s.Len, tb.ConstU(addrLimit, 64)))))
+			case StructV:
+				for _, fv := range s.Fields {
+					walk(fv)
+				}
+			}
+		}
+		walk(v)
 	}
 }
 
@@ -1418,6 +1544,13 @@ func (f *Frame) atCall(st *execState, call *ssa.Call) {
 			continue
 		}
 		sc := f.scopeAt(st, nil)
+		if ac.Assume {
+			sc.goal = false
+			g := e.evalBool(sc, ac.C.Expr, ac.C.Text)
+			e.assume(e.tb.Implies(st.reach, g))
+			e.trusted["assumed at call "+name+" in "+fnName(f.fn)+": "+ac.C.Text] = true
+			continue
+		}
 		if ac.Rewrite == "" {
 			sc.goal = true
 			g := e.evalBool(sc, ac.C.Expr, ac.C.Text)
